@@ -100,7 +100,7 @@ def crossing(role, kind, park):
                 and any(r[0] == 21 for r in tap.tx[mark:]))
 
         t0 = time.time()
-        while not settled() and time.time() - t0 < 40:
+        while not settled() and time.time() - t0 < 12:
             time.sleep(0.01)
         for t in (sub, peer):
             if not t.is_active():
@@ -206,7 +206,7 @@ def held_rekey(role, api, inflight):
                 and any(r[0] == 21 for r in tap.tx[mark:]))
 
         t0 = time.time()
-        while not (settled() and not th.is_alive()) and time.time() - t0 < 25:
+        while not (settled() and not th.is_alive()) and time.time() - t0 < 12:
             time.sleep(0.01)
         out["seconds"] = round(time.time() - t0, 2)
         types = [r[0] for r in tap.tx[mark:]]
@@ -260,7 +260,7 @@ def gated_send(role):
             raise InfraError("accept timed out")
         sub_ch, peer_ch = (sch, ch) if role == "server" else (ch, sch)
         tap = L.Tap(sub)
-        sub.clear_to_send_timeout = 5.0
+        sub.clear_to_send_timeout = 3.0
         if not pair.barrier():
             raise InfraError("session not usable before the re-exchange")
 
@@ -307,7 +307,7 @@ def gated_send(role):
                 and any(r[0] == 21 for r in tap.tx[mark:]))
 
         t0 = time.time()
-        while not (settled() and not th.is_alive()) and time.time() - t0 < 30:
+        while not (settled() and not th.is_alive()) and time.time() - t0 < 12:
             time.sleep(0.01)
         types = [r[0] for r in tap.tx[mark:]]
         window = []
@@ -358,7 +358,7 @@ def fragmented_inbound(role, rng):
             raise InfraError("accept timed out")
         sub_ch, peer_ch = (sch, ch) if role == "server" else (ch, sch)
         tap = L.Tap(sub)
-        sub.clear_to_send_timeout = 5.0
+        sub.clear_to_send_timeout = 3.0
         if not pair.barrier():
             raise InfraError("session not usable before the re-exchange")
         gate.close_gate()                                   # the subject reads nothing from now on
@@ -384,7 +384,7 @@ def fragmented_inbound(role, rng):
                 and any(r[0] == 21 for r in tap.tx[mark:]))
 
         t0 = time.time()
-        while not settled() and time.time() - t0 < 30:
+        while not settled() and time.time() - t0 < 12:
             time.sleep(0.01)
         for t in (sub, peer):
             if not t.is_active():
@@ -439,7 +439,7 @@ def received_bytes_trigger(role, rng):
             raise InfraError("accept timed out")
         sub_ch, peer_ch = (sch, ch) if role == "server" else (ch, sch)
         tap = L.Tap(sub)
-        sub.clear_to_send_timeout = 5.0
+        sub.clear_to_send_timeout = 3.0
         if not pair.barrier():
             raise InfraError("session not usable before the re-exchange")
         gate.close_gate()
@@ -463,7 +463,7 @@ def received_bytes_trigger(role, rng):
                 and any(r[0] == 21 for r in tap.tx[mark:]))
 
         t0 = time.time()
-        while not settled() and time.time() - t0 < 30:
+        while not settled() and time.time() - t0 < 12:
             time.sleep(0.01)
         pk.REKEY_BYTES = pk.REKEY_BYTES_OVERFLOW_MAX = 2 ** 29
         for t in (sub, peer):
@@ -555,7 +555,7 @@ def compressed_crossing(role, comp, initiator, seed):
         expect(sub_ch, warm_b, "warm-up peer->sub")
         logs = {"sub": EngineLog(sub), "peer": EngineLog(peer)}
         tap = L.Tap(sub)
-        sub.clear_to_send_timeout = peer.clear_to_send_timeout = 5.0
+        sub.clear_to_send_timeout = peer.clear_to_send_timeout = 3.0
         if not pair.barrier():
             raise InfraError("session not usable before the re-exchange")
         gate.close_gate()
@@ -593,7 +593,7 @@ def compressed_crossing(role, comp, initiator, seed):
                 and any(r[0] == 21 for r in tap.tx[mark:]))
 
         t0 = time.time()
-        while not settled() and time.time() - t0 < 30:
+        while not settled() and time.time() - t0 < 12:
             time.sleep(0.01)
         for t in ths:
             t.join(15)
